@@ -42,7 +42,9 @@ package provisioning
 //verif:ensures[ok-means-imported] ok ==> succeeded("(*Service).transactionalImport") && err == nil
 
 //verif:func (*Service).rollbackInPlace(s, ctx, pipelineID, oldConfig, swapped)
-//verif:call[restore-before-reswap] LifecycleService.ReconfigureProcessor requires succeeded("(*Service).transactionalImport")
+//verif:call[restore-before-reswap] LifecycleService.ReconfigureProcessor requires succeeded("(*Service).transactionalImport") && arg1 == pipelineID && exists q in [0, len(swapped)): arg2 == swapped[q]
+//verif:ensures[every-swapped-processor-is-swapped-back] succeeded("(*Service).transactionalImport") ==> count("LifecycleService.ReconfigureProcessor") == len(swapped)
+//verif:loop 0 invariant succeeded("(*Service).transactionalImport") && count("LifecycleService.ReconfigureProcessor") == niter && niter <= len(swapped)
 
 //verif:def locksInv(p) = p != nil && p.locks != nil && forall k :: has(p.locks, k) ==> p.locks[k] != nil
 
